@@ -167,7 +167,7 @@ def retain_strategy(tier):
     return st.fixed_dictionaries(
         {
             "spec": _specs(3),
-            "enabled": _enabled(RETAIN_KINDS).map(lambda kinds: kinds + ["keptassign", "keptassign", "pitch", "pitch"]),
+            "enabled": _enabled(RETAIN_KINDS).map(lambda kinds: kinds + ["keptassign", "keptassign", "pitch", "pitch", "height"]),
             "pre": st.lists(_op(), max_size=3),
             "preset": st.one_of(st.none(), _val()),  # give every array/list/dict parameter of the tables a value first
             "program": st.lists(st.one_of(_scope(1), _scope(1), _scope(1), _op()), min_size=1, max_size=3),
@@ -706,11 +706,57 @@ class Interp:
         self.counts["pitch:" + self.level[i]] += 1
 
     def op_height(self, op, base):
+        """The axial mesh of an assembly changes through armi's own calls: Block.setHeight (-> calculateZCoords),
+        Assembly.setBlockHeights / setBlockMesh, one prescribed axial expansion."""
+        how = op["n"] % 6
+        if how >= 3:
+            ia = self.pick("assembly", op["obj"], base, pred=lambda a: len(a) > 0)
+            if ia is not None:
+                a = self.objs[ia]
+                f = 0.6 + 0.4 * op["factor"]
+                if how == 3:
+                    a.setBlockHeights([round(b.getHeight() * f, 4) for b in a])
+                    self.counts["height:setBlockHeights"] += 1
+                elif how == 4:
+                    tops, z = [], 0.0
+                    for b in a:
+                        z += b.getHeight() * f
+                        tops.append(round(z, 4))
+                    mesh = [None] * (1 + max([int(b.p.topIndex) for b in a] + [len(tops) - 1]))
+                    for b, t in zip(a, tops):
+                        if 0 <= int(b.p.topIndex) < len(mesh):
+                            mesh[int(b.p.topIndex)] = t
+                    a.setBlockMesh(mesh, conserveMassFlag=bool(op["obj2"] % 2))
+                    self.counts["height:setBlockMesh"] += 1
+                else:
+                    self.axial_expansion(a, op)
+                if self.frames:
+                    self.counts["axial-mesh-changed-in-scope"] += 1
+                return
         i = self.pick("block", op["obj"], base)
         if i is None:
             return
         self.objs[i].setHeight(round(5.0 + 20.0 * op["factor"], 3))
         self.counts["height"] += 1
+        if self.frames:
+            self.counts["axial-mesh-changed-in-scope"] += 1
+
+    def axial_expansion(self, a, op):
+        """One prescribed axial expansion of the solid components of a block.  It only serves as a state change here (whatever it
+        does - including a refusal half way - must be undone by the scope), so its own failures are recorded, not judged (C12)."""
+        from armi.reactor.converters.axialExpansionChanger import AxialExpansionChanger
+        from armi.reactor.flags import Flags
+
+        blocks = [b for b in a]
+        b = blocks[op["obj2"] % len(blocks)]
+        comps = [c for c in b if not c.hasFlags(Flags.COOLANT) and type(c).__name__ != "DerivedShape" and c.containsSolidMaterial()]
+        if not comps:
+            return
+        try:
+            AxialExpansionChanger().performPrescribedAxialExpansion(a, comps, [0.002 + 0.01 * (op["pidx"] % 5)] * len(comps), setFuel=True)
+            self.counts["height:axial-expansion"] += 1
+        except Exception as e:  # noqa: BLE001
+            self.counts["height:axial-expansion-raised:" + type(e).__name__] += 1
 
     def op_dim(self, op, base):
         from armi.reactor.components import component as compmod
@@ -1080,7 +1126,7 @@ def retain_execute(case):
 def copies_strategy(tier):
     step = st.fixed_dictionaries(
         {
-            "how": st.sampled_from(["deepcopy", "deepcopy", "pickle"]),
+            "how": st.sampled_from(["deepcopy", "deepcopy", "pickle", "copy"]),  # "copy" = copy.copy, components only (Component.__copy__)
             "proto": st.sampled_from([2, 4, 5]),
             "src": st.integers(0, 10**6),
             "level": st.sampled_from(["block", "assembly", "component", "core", "reactor", "block", "component", "excore"]),
@@ -1098,8 +1144,32 @@ def copies_strategy(tier):
             # optional: the freshly built reactor is written to a real database; after 1..n copy steps it is loaded back in this
             # session (the loaded reactor joins the live trees) and an assembly of it is deep-copied at once
             "db": st.one_of(st.none(), st.none(), st.integers(0, 10**6)),
+            # assemblies discharged to the spent fuel pool first (spec forced to have one): whole-reactor copies then carry pool contents
+            "discharge": st.one_of(st.just([]), st.lists(st.integers(0, 10**6), min_size=1, max_size=2)),
         }
     )
+
+
+def _check_reactor_copy(r2, how, out):
+    """A copied reactor is ONE tree: what its ``excore`` collection hands out are its own children, and a retain-state scope on
+    the copy covers the contents of its pool."""
+    for key in sorted(r2.excore.keys()):
+        s = r2.excore[key]
+        if not (any(x is s for x in r2) and s.parent is r2):
+            out.fail("copies/reactor-copy-excore-not-its-own-child",
+                     "%s of a reactor: copy.excore[%r] (%d objects) is not one of the copy's children (parent %r)"
+                     % (how, key, 1 + len(s.getChildren(deep=True)), s.parent))
+            return
+    pool = [a for key in sorted(r2.excore.keys()) for a in r2.excore[key]]
+    if pool:
+        out.label("reactor-copy-with-pool-contents:" + how)
+        before = [a.p.chargeTime for a in pool]
+        with r2.retainState():
+            for a in pool:
+                a.p.chargeTime = a.p.chargeTime + 17.0
+        after = [a.p.chargeTime for a in pool]
+        if before != after:
+            out.fail("copies/reactor-copy-scope-misses-pool-contents", "%s of a reactor: chargeTime of the pool assemblies %r -> %r after a scope on the copy" % (how, before, after))
 
 
 def _load(db, cs, bp, trees, kinds, seen, out, enabled, case, do_step):
@@ -1128,7 +1198,14 @@ def copies_execute(case):
     from vp.model import observe as ob
 
     out = Out()
-    cs, bp, r = rg.build(case["spec"])
+    spec = dict(case["spec"], sfp=True) if case.get("discharge") else case["spec"]
+    cs, bp, r = rg.build(spec)
+    for k in case.get("discharge") or []:
+        assems = list(r.core)
+        if len(assems) < 2 or r.excore["sfp"].spatialGrid is None:
+            break
+        r.core.removeAssembly(assems[k % len(assems)], discharge=True)
+        out.label("pool-occupied")
     enabled = case["enabled"]
     db = None
     fn = "c16_%d.h5" % os.getpid()  # relative: lives in the per-process scratch directory
@@ -1160,11 +1237,29 @@ def copies_execute(case):
             i = src.pick("any", step["obj"], 0)
         o = src.objs[i]
         how = step["how"]
+        if how == "copy" and src.level[i] != "component":
+            how = "deepcopy"
+        if step.get("level") == "reactor" and src.level[0] == "reactor":
+            i, o = 0, src.objs[0]
         before_all = [snapshot(t.root) for t in trees]
         if how == "deepcopy":
             o2 = copy.deepcopy(o)
+        elif how == "copy":
+            o2 = copy.copy(o)
         else:
             o2 = pickle.loads(pickle.dumps(o, step["proto"]))
+        if how == "copy":
+            # the duplicate of a component reads every dimension like the original (its links keep their targets)
+            for d in o.DIMENSION_NAMES:
+                try:
+                    a, b = o.getDimension(d, cold=True), o2.getDimension(d, cold=True)
+                except Exception as e:  # noqa: BLE001
+                    a, b = "readable", "raises " + type(e).__name__
+                if not (a == b or (a != a and b != b)):
+                    out.fail("copies/copy-dimension-differs", "copy.copy of component %r: dimension %s reads %r on the original and %r on the duplicate" % (o.name, d, a, b))
+                    break
+        if src.level[i] == "reactor":
+            _check_reactor_copy(o2, how, out)
         levels.add(src.level[i])
         out.label("copy:%s:%s" % (how, src.level[i]), "of:" + kinds[step["src"] % len(trees)])
         what = "%s of %s %r (tree %d, %s)" % (how, src.level[i], o.name, step["src"] % len(trees), kinds[step["src"] % len(trees)])
@@ -1176,7 +1271,7 @@ def copies_execute(case):
             for x in ob.diff(b, snapshot(t.root), limit=2):
                 out.fail("copies/%s-changes-live-object" % how, "%s changed tree %d: %s" % (what, trees.index(t), x))
         ser = _serials(new)
-        if how == "deepcopy":
+        if how in ("deepcopy", "copy"):
             if len(set(ser)) != len(ser):
                 out.fail("copies/serial-duplicated-inside-copy", "%s: %r" % (what, sorted(ser)))
             shared = sorted(set(ser) & seen)
